@@ -8,7 +8,7 @@ The four features are two resolutions of the same occurrences:
 Proved here for ANY pair of resolutions over ANY occurrence list: the consistency clauses of C12 hold
 at every position where the two resolutions agree, and they fail exactly through a disagreement —
 so C12 reduces to `pos = trav`, which Props/C05 (`flat_scope_correct`) and Props/C06
-(`traversal_eq_spec`) establish outside the finding classes C05-K1/K2, C06-K2.
+(`traversal_eq_spec`) establish outside the finding classes C05-K1/K2.
 The harness checks the clauses on the real server without any oracle (every identifier of generated
 single-file programs, multi-file module workspaces and annotated aliases).
 -/
